@@ -5,11 +5,15 @@ use std::panic;
 
 mod esc;
 mod num;
+mod lexs;
+mod parses;
 
 fn run_case(fields: &[&str]) -> String {
     match fields[0] {
         "NUM" => num::num_case(fields),
         "CMP" => num::cmp_case(fields),
+        "LEX" => lexs::lex_case(fields),
+        "PARSE" => parses::parse_case(fields),
         s => format!("UNKNOWN-SUITE {}", s),
     }
 }
